@@ -359,10 +359,10 @@ func init() {
 			type ol struct{ o, l uint64 }
 			alts := []ol{
 				{orig.Offset + 1<<63, orig.Length + 1<<63}, // sum wraps to the original sum
-				{1<<64 - 1, orig.Length + 1},                // sum wraps to orig.Length
-				{-orig.Length, orig.Length},                 // sum wraps to 0
-				{orig.Offset, -orig.Offset},                 // sum wraps to 0
-				{orig.Offset + 1, orig.Length - 1},          // in range, not a response boundary
+				{1<<64 - 1, orig.Length + 1},               // sum wraps to orig.Length
+				{-orig.Length, orig.Length},                // sum wraps to 0
+				{orig.Offset, -orig.Offset},                // sum wraps to 0
+				{orig.Offset + 1, orig.Length - 1},         // in range, not a response boundary
 				{orig.Offset, orig.Length + 1<<32},
 				{orig.Offset, respLen - orig.Offset + 1}, // one byte past the section
 				{respLen, 0},
@@ -524,9 +524,9 @@ func init() {
 		Describe: func(v interface{}) string { cs := v.(*c05Case); return cs.op + " " + hx(cs.input) },
 	}
 	register(&mc.Property{
-		ID:    "C05",
-		Level: "model_checking",
-		Rule: "choice-tree enumeration of inputs to bundle.Read in watchdog-supervised workers: 4 (quick) / 6 (thorough) base bundles built by the reference encoder (b1/b2, 1-3 exchanges, primary/manifest/signatures sections, a b1 variants entry) x one structure-aware mutation: every length/offset/count head of the reference's field map replaced by each of 9 boundary values (0, exact+-1, file size, 2^32, 2^63-1, 2^63, 2^64-1, exact+2^63; thorough: pairs of fields), truncation at every offset, every byte set to 5 values (quick) / all 256 (thorough), offset/length pairs whose sum wraps around 2^64, an unknown section inserted consistently at every position (must be stepped over), the section table permuted / an entry duplicated / dropped, an unknown section listed without content. Oracle: refbx.Extract (location-strict, encoding-lenient). Non-trivial = the reference produced a verdict the reader had to match (content equality, must-refuse location, must-accept unknown section); distinct by input hash.",
+		ID:          "C05",
+		Level:       "model_checking",
+		Rule:        "choice-tree enumeration of inputs to bundle.Read in watchdog-supervised workers: 4 (quick) / 6 (thorough) base bundles built by the reference encoder (b1/b2, 1-3 exchanges, primary/manifest/signatures sections, a b1 variants entry) x one structure-aware mutation: every length/offset/count head of the reference's field map replaced by each of 9 boundary values (0, exact+-1, file size, 2^32, 2^63-1, 2^63, 2^64-1, exact+2^63; thorough: pairs of fields), truncation at every offset, every byte set to 5 values (quick) / all 256 (thorough), offset/length pairs whose sum wraps around 2^64, an unknown section inserted consistently at every position (must be stepped over), the section table permuted / an entry duplicated / dropped, an unknown section listed without content. Oracle: refbx.Extract (location-strict, encoding-lenient). Non-trivial = the reference produced a verdict the reader had to match (content equality, must-refuse location, must-accept unknown section); distinct by input hash.",
 		Assumptions: []string{"refbx extracts at least what bundle.Read accepts (any well-formed CBOR head, any key order) and is exact about locations", "inputs the reference can extract but the reader refuses for its own stricter rules (URL syntax, header-name case, ASCII) are not judged", "header maps with duplicate names are not judged (the property does not say which value a reader returns)"},
 		Harnesses:   []*mc.Harness{h},
 		Guard: func(s map[string]*mc.Stats) error {
